@@ -369,11 +369,13 @@ def check_case(case):
 
 
 # ---- strategies ---------------------------------------------------------------------------------------------
-VALID_NAMES = ["x-verif-a", "x-verif-b", "new-type", "abc", "x-a1-b2", "verif9", "a-b-c-d"]
+VALID_NAMES = ["x-verif-a", "x-verif-b", "new-type", "abc", "x-a1-b2", "verif9", "a-b-c-d",
+               "x-" + "a" * 248, "x-" + "b" * 247, "x-" + "c" * 200]      # exactly 250 (the upper limit), 249 and 202 characters
 BUILTIN_NAMES = ["identity", "file", "statement", "archive-ext", "indicator", "url", "tlp", "bundle", "marking-definition"]
 INVALID_NAMES = ["X-Upper", "x_under", "9lead", "-lead", "x--double", "a--", "ab", "a", "x-é", "x verif", "trail-", "x-", "a" * 251, "x.dot", "", "x-verif-A",
                  "a1-", "ab-", "9x9", "x---y", "abc--def-ghi", "x-nl\n", "abc\n"]
-VALID_PROPS = [[("prop_a", "string-required"), ("prop_b", "integer")], [("prop_a", "string-required")], [("x_foo", "string"), ("prop_a", "string-required")],
+VALID_PROPS = [[("prop_a", "string-required"), ("p" * 250, "integer")], [("prop_a", "string-required"), ("abc", "integer")],
+               [("prop_a", "string-required"), ("prop_b", "integer")], [("prop_a", "string-required")], [("x_foo", "string"), ("prop_a", "string-required")],
                [("prop_a", "string-required"), ("owner_ref", "ref")]]
 BAD_PROPS = [[("Prop", "string")], [("a-b", "string")], [("a b", "string")], [("9ab", "string")], [("_ab", "string")], [("ab", "string")], [("p" * 251, "string")],
              [("é_prop", "string")], [("aB", "string")], [("some_ref", "string")], [("some_refs", "list-string")], [("prop_a", "string-required"), ("b_C", "integer")], [("foo\n", "string")], [("prop_a", "string-required"), ("prop_b\n", "integer")]]
